@@ -141,7 +141,7 @@ CLAIMS = {
         design='4/C12'),
     'C13': dict(
         technique='Coq: every step of the direct-to-pack and import programs keeps referenced bytes (all inputs); step theorem + verified per-step trace checker; pack-choice theorem; before/after pack comparison',
-        text=('PROOF (Coq, closed): C13_add_to_pack_every_step / C13_import_every_step (for ALL inputs every single step of add_*_to_pack - the '
+        text=('PROOF (Coq, closed): C13_pack_every_step / C13_add_to_pack_every_step / C13_import_every_step (for ALL inputs every single step of pack_all_loose (one pack, unlinks included), of add_*_to_pack - the '
               'no_holes truncations included - and of the import transfer keeps every referenced byte of every pack and never cuts a pack below its '
               'last referenced byte), C13_import_steps_pass_the_side_conditions, C13_step_keeps_referenced_bytes (every accepted event), '
               'C13_trace_checker_sound, C13_monotone_history_keeps_referenced_bytes, C13_pack_choice_keeps_layout (_get_pack_id_to_write_to never '
@@ -149,7 +149,7 @@ CLAIMS = {
               '_get_pack_id_to_write_to on planted pack files; repack-free histories (targets 50/300/4GiB, reopened and parallel handles) compare '
               'every pack before/after every step and check consecutive ids and "all but the last pack reached the target and are never written '
               'again". PARTIAL: pack roll-over inside one call (the per-object consultation of _get_pack_id_to_write_to) is decided by the '
-              'histories and the pick correspondence, not by a program theorem; pack_all_loose steps are certified by the trace checker only.'),
+              'histories and the pick correspondence, not by a program theorem.'),
         design='4/C13'),
 
     'C14': dict(
